@@ -25,6 +25,7 @@ func init() {
 func runC15(c *Ctx) {
 	c.rule("U1", "loading succeeds only through Validate(): every possibly-nil return of LoadFromEnvironment follows configurationToSet.Validate() and returns its (wrapped) result; Load/LoadFromViper delegate to it", 3)
 	c.rule("U2", "source order in LoadFromEnvironment: MergeConfigMap(defaults) → configuration file → linkFlagKeysToStructureKeys → Unmarshal → Validate", 4)
+	c.rule("U14", "linkFlagKeysToStructureKeys asks the session whether the flag is set (IsSet) for every structure key: no key is passed over on the strength of another list", 1)
 	c.rule("U3", "linkFlagKeysToStructureKeys: a set flag is written with Set(); the default of an unset flag is forced only where the structure key is empty", 2)
 	c.rule("U9", "the reporting side (the names listed, the name a validation error gives) replaces the configuration key separator in the prefix too, like the session's key replacer", 2)
 	c.rule("U10", "a validation error records the enclosing field in front of the path gathered so far, for the structure path and for the variable-name path alike (the error travels from the innermost structure outwards)", 2)
@@ -201,6 +202,52 @@ func runC15(c *Ctx) {
 	})
 	c.check(setOnSet, "U3", fname(lk)+"/set-flag-wins", c.pos(lk.Pos()), "a set flag is written to the structure key with Set()", "on the side where the flag is set its value is not written with Set(): an explicitly set flag no longer beats the environment and the file")
 	c.check(forcedOnlyIfEmpty && nSets > 0, "U3", fname(lk)+"/default-only-if-empty", c.pos(lk.Pos()), "the default of an unset flag is forced only where the structure key is empty", "the default value of an unset flag is forced onto the structure key without that key having been found empty: it overrides what the environment, the file or the defaults supplied")
+
+	// ---- U14 ----------------------------------------------------------------
+	// "an explicitly set command-line flag bound to it has the highest priority": for every key of the structure. The question
+	// 'is the flag set?' is put to the session (IsSet), which knows; a shortcut that skips keys — because their flag key is not
+	// in AllKeys(), say: viper leaves out a flat key whose dotted parent path is bound too, so the flag on `log` hides the one
+	// on `log_level` — leaves the explicitly set flag of a skipped key out of the override layer.
+	{
+		var gate *ssa.If
+		var nonFlag *ssa.BasicBlock
+		for _, b := range lk.Blocks {
+			ifi, ok := b.Instrs[len(b.Instrs)-1].(*ssa.If)
+			if !ok {
+				continue
+			}
+			v, ts := boolTest(ifi)
+			if cl, ok := v.(*ssa.Call); ok {
+				if g := staticCallee(&cl.Call); g != nil && g.Name() == "isFlagKey" {
+					gate, nonFlag = ifi, b.Succs[1-ts]
+				}
+			}
+		}
+		var isSet *ssa.Call
+		allInstrs(lk, func(in ssa.Instruction) {
+			if cl, ok := in.(*ssa.Call); ok && method("IsSet")(cl) {
+				isSet = cl
+			}
+		})
+		switch {
+		case gate == nil || isSet == nil:
+			c.violate("U14", fname(lk)+"/every-structure-key-asked", c.pos(lk.Pos()), "linkFlagKeysToStructureKeys no longer asks the session, key by key, whether the flag bound to a structure key is set")
+		default:
+			// from the 'not a flag key' side: the next iteration (the gate again) or an exit reached without passing IsSet
+			skipped := pathPruned(lk, nonFlag.Instrs[0], func(in ssa.Instruction) bool { return in == ssa.Instruction(isSet) }, func(in ssa.Instruction) bool {
+				if in == ssa.Instruction(gate) {
+					return true
+				}
+				_, isRet := in.(*ssa.Return)
+				return isRet
+			}, nil)
+			if nonFlag.Instrs[0] == ssa.Instruction(isSet) {
+				skipped = nil
+			}
+			c.check(skipped == nil, "U14", fname(lk)+"/every-structure-key-asked", c.ipos(isSet), "every structure key reaches IsSet(flag key) before the next key is looked at",
+				"a structure key can be passed over without the session being asked whether its flag is set (the iteration reaches "+c.iposOr(skipped)+" without IsSet): a flag that was explicitly set for such a key is never written to the override layer and loses to the environment variable, the file or the defaults")
+		}
+	}
 
 	// ---- U4 -----------------------------------------------------------------
 	seo := c.fn(cfgPkg, "setEnvOptions")
